@@ -1,10 +1,15 @@
 use crate::engine::Property;
 
+pub mod common;
+pub mod c01;
+pub mod c04;
 pub mod c06;
 pub mod c09;
 
 pub fn lookup(id: &str) -> Option<&'static dyn Property> {
     match id {
+        "C01" => Some(&c01::C01),
+        "C04" => Some(&c04::C04),
         "C06" => Some(&c06::C06),
         "C09" => Some(&c09::C09),
         _ => None,
